@@ -15,7 +15,7 @@ def resource_dir():
     return core.sh(['clang', '-print-resource-dir']).stdout.strip()
 
 
-def be_objects(wdir, gdir, opt, triple='mips64-unknown-linux-gnu', identity=False, extra=(), extra_jobs=()):
+def be_objects(wdir, gdir, opt, triple='mips64-unknown-linux-gnu', identity=False, extra=(), extra_jobs=(), soft=False):
     """library + thunks through the rewriter; returns objects"""
     os.makedirs(wdir, exist_ok=True)
     res = resource_dir()
@@ -31,7 +31,7 @@ def be_objects(wdir, gdir, opt, triple='mips64-unknown-linux-gnu', identity=Fals
     jobs.append((os.path.join(core.ROOT, 'world', 'wrap_bo.c'), os.path.join(wdir, 'wrap_bo2'),
                  ['-DW_BO=w_bo2', '-DW_FORCE_BIG' if identity else '-DW_FORCE_LITTLE', '-Wno-builtin-macro-redefined']))
     jobs += [(s_, os.path.join(wdir, b_), list(d_)) for s_, b_, d_ in extra_jobs]
-    core.par([common + d + ['-S', '-emit-llvm', '-o', b + '.ll', s] for s, b, d in jobs], 'big-endian world: front end')
+    core.par([common + d + ['-S', '-emit-llvm', '-o', b + '.ll', s] for s, b, d in jobs], 'big-endian world: front end' if not soft else 'freestanding world (LLVM IR pipeline)', soft=soft)
     core.par([[sys.executable, os.path.join(core.ROOT, 'be', 'rewrite.py'), b + '.ll', b + '.be.ll'] + (['--identity'] if identity else []) for s, b, d in jobs],
              'big-endian world: IR rewriter refused the code (it never guesses)')
     core.par([['clang', '-c', '-O1', '-Wno-override-module', b + '.be.ll', '-o', b + '.o'] for s, b, d in jobs], 'big-endian world: back end')
